@@ -8,6 +8,7 @@ for d in seeded/*/; do
   [ -z "$props" ] && props=$(echo $id | sed 's/-.*//' | tr a-z A-Z)
   mkdir -p /tmp/seedsrc_$id && cp $d/patch.diff $d/demo.py /tmp/seedsrc_$id/ && [ -f $d/NOTES.md ] && cp $d/NOTES.md /tmp/seedsrc_$id/
   echo "== $id ($props)"
-  tools/try_seed.sh /tmp/seedsrc_$id $id $props 2>&1 | grep -E "^check|^demo|PATCH"
+  base=""; [ -f $d/base.txt ] && base=$(cat $d/base.txt)   # seeds that only apply/manifest on an older commit of /repo
+  BASE=$base tools/try_seed.sh /tmp/seedsrc_$id $id $props 2>&1 | grep -E "^check|^demo|PATCH"
   rm -rf /tmp/seedsrc_$id
 done
